@@ -22,6 +22,8 @@ type VerifCoordCall struct {
 	Conn   int    // connection id handed out by connect (1, 2, ...); the id being created for "connect"
 	Outcome string // Method "outcome": what the library's real Conn call returned (nil | k<code> | other) for call Of
 	Of      string
+	Body    []byte // Method "wirebody": the response body written for call Of, with Desc = what was encoded (in order)
+	Desc    string
 	Dead   bool   // byte-level path: the connection was dropped earlier, the call cannot reach the coordinator (answer is ignored)
 	Method string // connect close findCoordinator joinGroup syncGroup leaveGroup heartbeat offsetFetch offsetCommit readPartitions
 
